@@ -29,7 +29,9 @@ func (m *Member) apiApp() *fiber.App {
 }
 
 // apiCall performs one in-memory HTTP request in an actor goroutine.
-func (m *Member) apiCall(method, path, body string) {
+func (m *Member) apiCall(method, path, body string) { m.apiCallThen(method, path, body, nil) }
+
+func (m *Member) apiCallThen(method, path, body string, then func()) {
 	w := m.w
 	name := method + " " + path
 	if body != "" {
@@ -41,6 +43,9 @@ func (m *Member) apiCall(method, path, body string) {
 			req.Header.Set("Content-Type", "application/json")
 		}
 		resp, err := m.apiApp().Test(req, -1)
+		if then != nil {
+			then()
+		}
 		if err != nil {
 			w.jl(&journal.Ev{K: journal.KAPI, M: m.id, Vb: -1, S: name, S2: "error: " + err.Error(), I: -1})
 			return "error"
